@@ -79,10 +79,8 @@ def run(ctx):
             any(x.get("k") == "call" and x.get("op") == "=" and any(callee_name(y) == TD + "GetInterfacePayload" for y in walk(x)) for _, x in p.elems())
 
     def cp_prod(p):
-        r = p.returns()
-        return r is not None and not (strip_all_casts(r["e"]).get("null") or const_value(r["e"]) == 0 or
-                                      (strip_all_casts(r["e"]).get("k") == "construct" and not strip_all_casts(r["e"]).get("args")) or
-                                      all(x.get("null") or x.get("k") in ("construct", "cast") for x in walk(r["e"])))
+        v = paths.returned_value(p)
+        return v is not None and not paths.is_null_value(v)
     t1, t2 = produces_table(fb, hp, hp_prod), produces_table(fb, cpk, cp_prod)
     want = {"cmStatus", "busStatus", "data"}
     for name, val in sorted(mt.items()):
@@ -100,9 +98,7 @@ def run(ctx):
     cd = fb.fn(TC + "ConvertDataPayload")
     dt = {e["name"]: e["value"] for e in fb.enum(TH + "::DataType")["enumerators"]}
 
-    def gd_prod(p):
-        r = p.returns()
-        return r is not None and not all(x.get("null") or x.get("k") in ("construct", "cast") for x in walk(r["e"]))
+    gd_prod = cp_prod
     t3, t4 = produces_table(fb, gd, gd_prod), produces_table(fb, cd, gd_prod)
     wantd = {"can", "canFd", "lin"}
     for name, val in sorted(dt.items()):
@@ -171,15 +167,39 @@ def run(ctx):
         lb, ls = loops[0]
         body = ls.get("body", {})
         pushes = [x for x in walk(body) if x.get("k") == "call" and callee_name(x) == "std::vector::push_back"]
-        adv = [x for x in walk(body) if x.get("k") == "cassign" and x.get("op") == "+"]
-        cond_reads = reads(ls["cond"])
-        ok = len(pushes) == 1 and len(adv) == 1 and lvalue_root(adv[0]["l"]) in cond_reads and const_value(adv[0]["r"]) == 12
-        offv = lvalue_root(adv[0]["l"]) if adv else None
-        init = facts.local_defs(gi).get(offv, [])
-        ok = ok and any(const_value(e) == 12 for e in init)
         sb = [x for x in walk(body) if x.get("k") == "call" and callee_name(x) == "TECMP::InterfacePayload::setBusData"]
-        ok = ok and len(sb) == 1 and offv in reads(sb[0]["args"][0]) and const_value(sb[0]["args"][1]) == 12
-        why = "pushes=%d advances=%s" % (len(pushes), [canon(a) for a in adv])
+        why = "pushes=%d setBusData=%d" % (len(pushes), len(sb))
+        if len(pushes) == 1 and len(sb) == 1:
+            from rules.c02 import ptr_linear
+            from rules.decoder_rules import bound_fact
+            lf = ptr_linear(gi, sb[0]["args"][0])
+            L = const_value(sb[0]["args"][1])
+            leaf = gi.cfg.branch_leaf(lb)
+            bf = bound_fact(gi, facts.atom_of(leaf, True), gi.params[1]["decl"]) if leaf is not None else None
+            why = "entry pointer %s, length %s, loop bound %s" % (lf, L, bf)
+            if lf is not None and bf is not None and L is not None and lf[0] == gi.params[0]["decl"]:
+                form = lf[1]
+                vs = [k for k in form if k != 1 and form[k] != 0]
+                if len(vs) == 1 and vs[0] == bf[2]:
+                    v = vs[0]
+                    c, a = form[v], form.get(1, 0)
+                    # the loop variable: constant start, one constant step per iteration
+                    inits = [const_value(dv["init"]) for x in gi.nodes() if x.get("k") == "decl" for dv in x.get("vars", [])
+                             if dv.get("decl") == v and isinstance(dv.get("init"), dict)]
+                    inits += [None for x in gi.nodes() if x.get("k") in ("assign", "cassign") and lvalue_root(x["l"]) == v and not any(x is y for y in walk(ls))]
+                    steps = [x for x in walk(ls) if (x.get("k") == "cassign" and lvalue_root(x["l"]) == v) or
+                             (x.get("k") == "un" and x.get("op") in ("pre++", "post++") and lvalue_root(x["e"]) == v)]
+                    others = [x for x in walk(ls) if (x.get("k") == "assign" and lvalue_root(x["l"]) == v) or
+                              (x.get("k") == "un" and x.get("op") in ("pre--", "post--") and lvalue_root(x["e"]) == v)]
+                    d = None
+                    if len(steps) == 1 and not others:
+                        d = 1 if steps[0].get("k") == "un" else (const_value(steps[0]["r"]) if steps[0].get("op") == "+" else None)
+                        # the step is executed once on every iteration: it post-dominates the body entry or is the for-increment
+                    if len(inits) == 1 and inits[0] is not None and d:
+                        start, stride = a + c * inits[0], c * d
+                        exact = bf[1] == c and bf[0] == a + L  # loop runs exactly while the next entry fits
+                        ok = start == 12 and stride == 12 and L == 12 and exact
+                        why = "entries at %d + %d*k, %d bytes each, loop continues while %d + %d*%s <= size" % (start, stride, L, bf[0], bf[1], v.split(":")[-1])
     res.check(ok, "C15-R5", "bus-status:entry-loop", gi.loc, "one payload per 12-byte entry, starting at offset 12", "bus-status entry loop: " + why)
     res.floor("C15-R2", 15)
     res.floor("C15-R3", 20)
